@@ -30,6 +30,10 @@ func runC20(e *Env) {
 	r.Rule("C20.R1", "absint", "IsNoResponseCode ≠ nil ⇔ (class=2 ∧ v&2) ∨ (class=4 ∧ v&8) ∨ (class=5 ∧ v&16), for every code class × bit setting", 72)
 	r.Rule("C20.R2", "paths+flows", "SetResponse checks before mutating; New reads option 258 from the whole request option list; construction sites pass the request's options", 7)
 	r.Rule("C20.R3", "paths", "unmodified response: bare ACK for CON, nothing otherwise", 3)
+	r.Rule("C20.R4", "callgraph", "who may set the code of a response writer's message: only SetResponse (after its check) and the bare-ACK arm", 2)
+	if e.want("C20.R4") {
+		c20WhoSetsCode(e)
+	}
 
 	if f := e.fn("C20.R1", "message/noresponse.IsNoResponseCode"); f != nil && len(f.Params) == 2 && e.want("C20.R1") {
 		w, signed, okT := intTypeOf(f.Params[0].Type())
@@ -314,5 +318,68 @@ func c20Unmodified(e *Env) {
 			}
 		}
 		e.R.Check(ok, rule, "tcp/client.Conn.ProcessReceivedMessageWithHandler:write-if-modified", e.fpos(f), "the response is written only on the IsModified() edge", "a response can be written although the handler did not set one")
+	}
+}
+
+// c20WhoSetsCode: a response code put on the message obtained from a ResponseWriter bypasses the No-Response check unless it
+// goes through ResponseWriter.SetResponse. Listed: SetResponse itself (writes r.response after the check) and processResponse's
+// bare acknowledgement (code 0.00, not a response class).
+func c20WhoSetsCode(e *Env) {
+	rule := "C20.R4"
+	nSeen := 0
+	for _, f := range e.P.SrcFuncs(false) {
+		name := core.FnName(f)
+		if strings.HasPrefix(name, "examples/") {
+			continue
+		}
+		core.Instrs(f, func(in ssa.Instruction) {
+			c, ok := in.(*ssa.Call)
+			if !ok || !strings.HasSuffix(core.CalleeName(c), "pool.Message.SetCode") {
+				return
+			}
+			recv := core.Resolve(core.Unwrap(core.Arg(c, 0)))
+			origin := ""
+			switch x := recv.(type) {
+			case *ssa.Call:
+				n := core.CalleeName(x)
+				if strings.HasSuffix(n, "ResponseWriter.Message") || strings.HasSuffix(n, "esponseWriter.Message") {
+					origin = n
+				}
+				if x.Call.IsInvoke() && x.Call.Method.Name() == "Message" {
+					// any interface that also offers SetResponse is a response writer (mux.ResponseWriter is an alias of an anonymous interface)
+					if it, isI := x.Call.Value.Type().Underlying().(*types.Interface); isI {
+						for i := 0; i < it.NumMethods(); i++ {
+							if it.Method(i).Name() == "SetResponse" {
+								origin = "response-writer interface"
+							}
+						}
+					}
+				}
+			case *ssa.UnOp:
+				if own, fl, isF := core.FieldOf(x.X); isF && fl == "response" && strings.Contains(own, "ResponseWriter") {
+					origin = own + ".response"
+				}
+			}
+			if origin == "" {
+				return
+			}
+			nSeen++
+			root := name
+			if p := f.Parent(); p != nil {
+				root = core.FnName(p)
+			}
+			switch {
+			case root == "net/responsewriter.ResponseWriter.SetResponse":
+				e.R.Ok(rule, root+":sets-code", e.pos(c), "the checked entry point")
+			case root == "udp/client.Conn.processResponse":
+				k, isK := core.ConstInt(core.Arg(c, 1))
+				e.R.Check(isK && k == 0, rule, root+":sets-code", e.pos(c), "bare acknowledgement: code 0.00", "processResponse sets a response code other than 0.00 directly")
+			default:
+				e.R.Fail(rule, root+":sets-code", e.pos(c), "a response code is set on the response writer's message without going through SetResponse: the request's No-Response option is not consulted for this response")
+			}
+		})
+	}
+	if nSeen == 0 {
+		e.R.Undecided(rule, "module:sets-code", "-", "no SetCode on a response writer's message found")
 	}
 }
